@@ -328,7 +328,14 @@ fn run(ctx: &mut Ctx) {
         } else {
             let occ = occupancy(rng, 4);
             let nh = 6 + rng.usize(10);
-            let (wires, mut pads) = random_hits(&m, rng, &occ, nh, 300, 1.0, true);
+            let (mut wires, mut pads) = random_hits(&m, rng, &occ, nh, 300, 1.0, true);
+            // wires too: every ADC packet has its own number of samples
+            for (w, s) in wires.iter_mut() {
+                let l = *rng.pick(&[300usize, 300, 300, 260, 200, 150]);
+                if *w % 3 != 0 {
+                    s.truncate(l);
+                }
+            }
             // pads are cut chip by chip (blocks of rows) to their own length
             let lens: Vec<usize> = (0..64).map(|_| *rng.pick(&[300usize, 300, 250, 200, 150, 100, 60])).collect();
             for (_, r, s) in pads.iter_mut() {
